@@ -1,4 +1,6 @@
 import Ruint.Lemmas.FloatTryG
+import Ruint.Props.C06
+import Ruint.Gen.WordsToFloat
 import Ruint.Lemmas.FloatMsb
 import Ruint.Lemmas.FloatOld
 import Ruint.Lemmas.FloatOrd
@@ -280,5 +282,27 @@ example : toFloatV b64 (2 ^ 64 - 1) = 0x43f0000000000000 ∧ toFloatV b64 (2 ^ 1
     ∧ toFloatV b64 (2 ^ 1024 - 2 ^ 970 - 1) = 0x7fefffffffffffff := by decide +kernel
 example : toFloat b64 [0, 0x0000000000000400, 0x8000000000000000] = toFloatV b64 (val [0, 0x400, 0x8000000000000000]) := by
   decide +kernel
+
+/-! ## Tie of `f64::from(&Uint)` / `f32::from(&Uint)` to the source (G)
+
+`Ruint.Gen.f64_from_uint` / `f32_from_uint` are regenerated from `src/from.rs` on every run: the call of the (generated)
+`most_significant_bits`, the two `as Self` casts, the product and `exp2` — with the float operations read as the IEEE model's
+`ofNat` (round to nearest even), `mul` and `exp2Int` (libm's `exp2` on an integer argument is taken to be the exact power of two).
+They are the value-level function `toFloatV` the theorems above are about; the driver runs them. -/
+
+theorem gen_to_float_eq (bits : ℕ) (hN : nlimbs bits < 2 ^ 57) (l : List ℕ) (hl : Canon bits l) :
+    Ruint.Gen.f64_from_uint bits (nlimbs bits) l = toFloatV b64 (val l)
+    ∧ Ruint.Gen.f32_from_uint bits (nlimbs bits) l = toFloatV b32 (val l) := by
+  have hg := Ruint.C06.gen_most_significant_bits_eq bits hN l hl
+  obtain ⟨h2, h1, _, _⟩ := Ruint.C06.most_significant_bits_spec bits l hl
+  have hs : Ruint.Bits.size (val l) = Ruint.Float.bitLen (val l) := rfl
+  have hm : Ruint.Gen.uint_most_significant_bits bits (nlimbs bits) l = msbSpec (val l) := by
+    rw [hg]
+    unfold msbSpec
+    apply Prod.ext
+    · simp only; rw [h1, h2, hs]
+    · simp only; rw [h2, hs]
+  unfold Ruint.Gen.f64_from_uint Ruint.Gen.f32_from_uint toFloatV toFloatOf
+  refine ⟨?_, ?_⟩ <;> simp only [hm]
 
 end Ruint.C18
